@@ -27,6 +27,60 @@ const TABLE_BITS: usize = 20;
 static LIVE_TABLE: [std::sync::atomic::AtomicUsize; 1 << TABLE_BITS] =
     [const { std::sync::atomic::AtomicUsize::new(0) }; 1 << TABLE_BITS];
 
+/// quarantined blocks of the current run (released at the start of the next run so that long soak scripts fit in memory)
+const QMAX: usize = 1 << 21;
+static QPTR: [std::sync::atomic::AtomicUsize; QMAX] = [const { std::sync::atomic::AtomicUsize::new(0) }; QMAX];
+static QSIZE: [std::sync::atomic::AtomicUsize; QMAX] = [const { std::sync::atomic::AtomicUsize::new(0) }; QMAX];
+static QALIGN: [std::sync::atomic::AtomicUsize; QMAX] = [const { std::sync::atomic::AtomicUsize::new(0) }; QMAX];
+static QLEN: std::sync::atomic::AtomicUsize = std::sync::atomic::AtomicUsize::new(0);
+
+/// give the quarantined (freed, poisoned) blocks back to the system allocator; call only between runs, when no
+/// structure of the previous run is referenced any more
+static TOMBS: std::sync::atomic::AtomicUsize = std::sync::atomic::AtomicUsize::new(0);
+
+/// rebuild the open-addressing table of live blocks without its tombstones (they only ever accumulate otherwise and
+/// a saturated table makes a miss probe forever)
+fn compact_live_table() {
+    let mut n = 0usize;
+    for s in LIVE_TABLE.iter() {
+        if s.load(Ordering::Relaxed) > 1 {
+            n += 1;
+        }
+    }
+    let mut live: Vec<usize> = Vec::with_capacity(n + 64);
+    for s in LIVE_TABLE.iter() {
+        let v = s.load(Ordering::Relaxed);
+        if v > 1 && live.len() < live.capacity() {
+            live.push(v);
+        }
+    }
+    for s in LIVE_TABLE.iter() {
+        s.store(0, Ordering::Relaxed);
+    }
+    for a in &live {
+        table_insert(*a);
+    }
+    TOMBS.store(0, Ordering::Relaxed);
+}
+
+pub fn release_quarantine() {
+    if TOMBS.load(Ordering::Relaxed) > (1 << (TABLE_BITS - 2)) {
+        compact_live_table();
+    }
+    let n = QLEN.swap(0, Ordering::Relaxed).min(QMAX);
+    for i in 0..n {
+        let p = QPTR[i].load(Ordering::Relaxed);
+        if p != 0 {
+            unsafe {
+                System.dealloc(
+                    p as *mut u8,
+                    Layout::from_size_align_unchecked(QSIZE[i].load(Ordering::Relaxed), QALIGN[i].load(Ordering::Relaxed)),
+                )
+            };
+        }
+    }
+}
+
 fn slot(addr: usize) -> usize {
     (addr >> 3).wrapping_mul(0x9E37_79B9_7F4A_7C15) >> (64 - TABLE_BITS)
 }
@@ -47,6 +101,7 @@ fn table_remove(addr: usize) {
         let cur = LIVE_TABLE[i].load(Ordering::Relaxed);
         if cur == addr {
             LIVE_TABLE[i].store(1, Ordering::Relaxed);
+            TOMBS.fetch_add(1, Ordering::Relaxed);
             return;
         }
         if cur == 0 {
@@ -93,7 +148,15 @@ unsafe impl GlobalAlloc for CountingAlloc {
         LIVE_BLOCKS.fetch_sub(1, Ordering::Relaxed);
         if TRACK.load(Ordering::Relaxed) != 0 {
             table_remove(ptr as usize);
-            return; // quarantine: never hand the block out again
+            // quarantine: not handed out again during this run (released by `release_quarantine` between runs;
+            // beyond QMAX blocks per run the block is simply leaked)
+            let i = QLEN.fetch_add(1, Ordering::Relaxed);
+            if i < QMAX {
+                QPTR[i].store(ptr as usize, Ordering::Relaxed);
+                QSIZE[i].store(layout.size(), Ordering::Relaxed);
+                QALIGN[i].store(layout.align(), Ordering::Relaxed);
+            }
+            return;
         }
         System.dealloc(ptr, layout)
     }
